@@ -228,7 +228,7 @@ impl<'a> R<'a> {
             if let Some(target) = self.opts.get("index_call") {
                 if target.split('|').any(|t| norm(t) == norm(self.verb(ix.expr.span()))) {
                     self.note("R8 Index::index on a non-Vec container -> prelude accessor qx_index");
-                    return Some(format!("{}.qx_index({})", self.expr(&ix.expr), self.expr(&ix.index)));
+                    return Some(format!("{}.{}({})", self.expr(&ix.expr), self.opts.get("index_fn").unwrap_or("qx_index"), self.expr(&ix.index)));
                 }
             }
         }
